@@ -12,7 +12,10 @@ with "spec2" = the id_spec of the update() calls, "special"/"absent" = special-l
 replace, and handles from another database, looked up again; see execute_stale), "autoclash" (an explicit id that spells
 the '<base>_<k>' key of a later / earlier auto-numbered feature: the two collide under "strategy"; see execute_autoclash) and
 "dbcopy" (create_db(data=<FeatureDB built under "spec1" with history "ops">, id_spec="spec"), optionally followed by an
-update() of the copy with "later"; see execute_dbcopy).
+update() of the copy with "later"; see execute_dbcopy).  An "import" case may carry "objects" = {"as": "list" | "iter",
+"holders": per batch, per line, per attribute "list" | "tuple" | "listsub"}: the lines are then handed to create_db / update() as
+gffutils Feature objects whose attribute values sit in those sequence types instead of being parsed from text.  It may carry
+"preexisting" = {"recs": lines of an earlier, unrelated import, "force": bool}: the target path already holds a gffutils database.
 """
 import collections
 import os
@@ -63,7 +66,12 @@ RULE = ("files of n in {1..6,8,12,20} lines (GFF3 and GTF) whose features have /
         "(Name, 'nokey', ':start:' / ':end:', list, dict, six callables, or the default) and / or had features deleted (mostly ones it "
         "auto-numbered: holes) and / or features added by update() before the copy, S = None / str / ':column:' / list / dict (also "
         "OrderedDict, subclass) / callable, copy into :memory: or a file, source :memory: / file / reopened file, optionally followed by "
-        "an update() of the copy with mostly anonymous features. non-trivial = >= 2 different derivation branches taken in "
+        "an update() of the copy with mostly anonymous features; (feature objects) the same files handed to create_db / update() as a list "
+        "or an iterator of gffutils Feature objects (GFF3, and GTF through the Feature's dialect) whose attribute values are held in lists, "
+        "tuples and list-subclass instances (all of one kind, or mixed per attribute), single- and multi-valued, under every id_spec form; "
+        "(occupied path) create_db to a file path that already holds a gffutils database made from 1-5 other lines, with force=True and "
+        "without force. "
+        "non-trivial = >= 2 different derivation branches taken in "
         "one file (or a rejected multi-valued id), or a handle whose position holds another id; distinct = distinct "
         "(format, spec, path, file content, script)")
 REQUIRED = ["imports", "keys compared with the reference derivation", "lookups db[key]", "lookups db[feature]",
@@ -127,7 +135,19 @@ REQUIRED = ["imports", "keys compared with the reference derivation", "lookups d
             "dbcopy: features deleted from the source before the copy",
             "dbcopy: update() of the copy, numbering goes on from the copy's own count",
             "dbcopy: auto-numbered keys handed out by update() of the copy",
-            "dbcopy: copies completed with every key as the new id_spec dictates"]
+            "dbcopy: copies completed with every key as the new id_spec dictates",
+            # Feature objects as data
+            "objects: imports of Feature objects", "objects: update() with Feature objects", "objects: keys compared",
+            "objects: key is the single value of an attribute held in a tuple",
+            "objects: key is the single value of an attribute held in a list-subclass instance",
+            "objects: multi-valued id attribute held in a tuple rejected",
+            "objects: multi-valued id attribute held in a list-subclass instance rejected",
+            "objects: multi-valued id attribute held in a list rejected",
+            "objects: imports completed with every key as id_spec dictates",
+            # target path already holds a database
+            "occupied path: create_db to a path that already holds a gffutils database",
+            "occupied path: force=True, the database holds exactly the imported features under the keys id_spec dictates",
+            "occupied path: without force, create_db refused"]
 REQUIRED_CLASSES = ["fmt=gff3", "fmt=gtf"] + ["form=" + f for f in G.FORMS] + ["form=confusable"] + [
     "branch=attribute#0", "branch=attribute#1", "branch=column", "branch=fallback", "branch=dict:no entry->fallback",
     "branch=dict:entry absent->fallback", "branch=callable:None->fallback", "branch=callable:autoincrement",
@@ -144,7 +164,9 @@ REQUIRED_CLASSES = ["fmt=gff3", "fmt=gtf"] + ["form=" + f for f in G.FORMS] + ["
     "autoclash: strategy=" + st for st in G.AUTOCLASH_STRATEGIES] + ["autoclash: create_db", "autoclash: create_db + update()"] + [
     "autoclash: form=" + f for f in G.AUTOCLASH_FORMS] + ["dbcopy: source history=" + h for h in sorted(set(G.DBCOPY_HISTORIES))] + [
     "dbcopy: source id_spec form=" + f for f in sorted(set(G.DBCOPY_SRC_FORMS))] + ["dbcopy: form=" + f for f in sorted(set(G.DBCOPY_FORMS))] + [
-    "dbcopy: branch=fallback", "dbcopy: branch=attribute#0", "dbcopy: branch=dict:no entry->fallback", "dbcopy: branch=callable:None->fallback"]
+    "dbcopy: branch=fallback", "dbcopy: branch=attribute#0", "dbcopy: branch=dict:no entry->fallback", "dbcopy: branch=callable:None->fallback"] + [
+    "objects: holders=" + h for h in ("list", "tuple", "listsub", "mixed")] + ["objects: fmt=gff3", "objects: fmt=gtf", "objects: data=list",
+    "objects: data=iter", "objects: outcome=reject", "objects: outcome=keys", "occupied path: force=True", "occupied path: no force"]
 ASSUMPTIONS = [
     "inputs on which the derived keys collide are not judged (the key would then be altered by the merge strategy, "
     "which is C05's subject); they are skipped and counted",
@@ -192,6 +214,14 @@ ASSUMPTIONS = [
     "identified with its input line by (start, end), and the key each had in the source plays no part; the copy's later update() counts on "
     "from the copy's own numbers.  Building the source (create_db / delete / update) is not this class's subject: if it raises the case is "
     "skipped and counted",
+    "(feature objects) a Feature object given as data is an input feature like a parsed line: its attributes are what its attribute mapping "
+    "holds, and 'an id attribute carrying several values' is one whose value sequence (list, tuple or list subclass - the documented "
+    "'list of values', whatever sequence holds them) has more than one item; a one-item sequence is a single value and is the key.  Bare "
+    "strings as attribute values are not generated (one value or a sequence of characters: not stated); GTF features carry the GTF dialect "
+    "and are imported with inference off",
+    "(occupied path) the database create_db returns is the database of the features it imported: every one under the key id_spec dictates "
+    "('<featuretype>_<n>' counting from 1), nothing else stored (any other key is absent).  What create_db does when the path is occupied and "
+    "force is not given is not stated: raising (any exception) is accepted; if it returns a database, that database is judged like any other",
 ]
 QUICK_SHARDS = 4
 THOROUGH_SHARDS = 16
@@ -284,6 +314,64 @@ def text_of(recs, fmt):
     return "\n".join(MD.render_line(r, D) for r in recs) + "\n"
 
 
+class _ListSub(list):
+    """A list subclass: an instance IS a list of values."""
+
+
+_HOLDERS = {"list": list, "tuple": tuple, "listsub": _ListSub}
+_ID_ATTRS = ("ID", "Name", "Alias", "gene_id", "transcript_id")
+
+
+def features_of(recs, holders, fmt):
+    """The records as gffutils Feature objects; the values of attribute j of line i sit in a _HOLDERS[holders[i][j]]."""
+    import gffutils
+    from gffutils import constants
+
+    dialect = None
+    if fmt == "gtf":
+        dialect = dict(constants.dialect)
+        dialect["fmt"] = "gtf"
+    out = []
+    for rec, hs in zip(recs, holders):
+        attrs = dict((k, _HOLDERS[h](list(v))) for (k, v), h in zip(rec["attrs"], hs))
+        if len(attrs) != len(rec["attrs"]) or len(hs) != len(rec["attrs"]):
+            raise AssertionError("harness: repeated attribute key / holders do not match the attributes")
+        kw = {"dialect": dialect} if dialect else {}
+        out.append(gffutils.Feature(seqid=rec["seqid"], source=rec["source"], featuretype=rec["featuretype"], start=int(rec["start"]),
+                                    end=int(rec["end"]), score=rec["score"], strand=rec["strand"], frame=rec["frame"], attributes=attrs, **kw))
+    return out
+
+
+def gen_objects_case(rng, style=None):
+    """An ordinary import case whose lines are handed over as Feature objects; about half get one more multi-valued id attribute."""
+    case = G.gen_case(rng)
+    case["infer"] = False
+    case["input"] = "string"
+    flat = [rec for b in case["batches"] for rec in b]
+    if rng.random() < 0.5:
+        rec = rng.choice(flat)
+        cands = [a for a in rec["attrs"] if a[0] in _ID_ATTRS and len(a[1]) == 1]
+        if cands:
+            a = rng.choice(cands)
+            v = a[1][0]
+            a[1] = [v + "a", v + "b"] if rng.random() < 0.7 else [v, v + "b", v + "c"]
+    style = style or rng.choice(["tuple", "tuple", "listsub", "mixed", "mixed", "list"])
+    holders = []
+    for b in case["batches"]:
+        holders.append([[style if style != "mixed" else rng.choice(["list", "tuple", "tuple", "listsub"]) for _ in rec["attrs"]] for rec in b])
+    case["objects"] = {"as": rng.choice(["list", "iter"]), "style": style, "holders": holders}
+    return case
+
+
+def gen_occupied_case(rng, force=None):
+    """An ordinary import case into a file path that already holds the database of 1-5 other lines (default id_spec)."""
+    case = G.gen_case(rng)
+    case["db"] = "file"
+    case["preexisting"] = {"recs": G.records(rng, case["fmt"], rng.choice([1, 2, 3, 5]), 0.0),
+                           "force": (rng.random() < 0.5) if force is None else force}
+    return case
+
+
 def execute(ctx, case):
     import gffutils
 
@@ -373,7 +461,12 @@ def execute(ctx, case):
         expected, recs_so_far = [], []
         for bi, (b, r) in enumerate(zip(batches, plan)):
             text = text_of(b, fmt)
-            if case["input"] == "path":
+            objects = case.get("objects")
+            if objects:
+                data, from_string = features_of(b, objects["holders"][bi], fmt), False
+                if objects["as"] == "iter":
+                    data = iter(data)
+            elif case["input"] == "path":
                 src = ctx.tmp(".gff" if fmt == "gff3" else ".gtf")
                 with open(src, "w", encoding="utf-8", newline="") as fh:
                     fh.write(text)
@@ -381,7 +474,22 @@ def execute(ctx, case):
                 data, from_string = src, False
             else:
                 data, from_string = text, True
+            pre = case.get("preexisting") if bi == 0 else None
+            if pre:
+                if dbfn == ":memory:":
+                    raise AssertionError("harness: an occupied path needs db=file")
+                try:
+                    old = gffutils.create_db(text_of(pre["recs"], fmt), dbfn, from_string=True, **_gtf_kw(case))
+                    old.conn.close()
+                except Exception as ex:
+                    ctx.skip("occupied path: building the earlier database raised %s (not this class's subject)" % type(ex).__name__)
+                    return None
+                ctx.mon("occupied path: create_db to a path that already holds a gffutils database")
+                if pre["force"]:
+                    kw_create["force"] = True
             try:
+                if objects:
+                    ctx.mon("objects: imports of Feature objects" if bi == 0 else "objects: update() with Feature objects")
                 if bi == 0:
                     db = gffutils.create_db(data, dbfn, from_string=from_string, **kw_create)
                     ctx.mon("imports")
@@ -418,8 +526,13 @@ def execute(ctx, case):
                     if case.get("spec2"):
                         ctx.mon("update(id_spec=...) under another id_spec than create_db")
             except Exception as ex:
+                if pre and not pre["force"]:
+                    ctx.mon("occupied path: without force, create_db refused")
+                    break
                 if r["outcome"] == "reject":
                     ctx.mon("multi-valued id rejected")
+                    if objects:
+                        ctx.mon("objects: multi-valued id attribute held in a %s rejected" % _holder_of_rejected(b, objects["holders"][bi], r))
                     if r.get("in_tuple"):
                         ctx.mon("tuple entries: multi-valued id attribute named in a tuple rejected")
                     break
@@ -452,6 +565,16 @@ def execute(ctx, case):
             if not compare(ctx, case, db, expected, recs_so_far, branches, deriver, "after %s" % ("create_db" if bi == 0 else "update")):
                 contracts.drain()
                 return branches
+            if pre:
+                ctx.mon("occupied path: force=True, the database holds exactly the imported features under the keys id_spec dictates" if pre["force"] else
+                        "occupied path: without force, create_db returned a database holding exactly the imported features (accepted)")
+            if objects:
+                names = {"tuple": "a tuple", "listsub": "a list-subclass instance", "list": "a list"}
+                for rec, hs, k, br in zip(b, objects["holders"][bi], final[bi], r["branches"]):
+                    ctx.mon("objects: keys compared")
+                    if br.startswith("attribute"):
+                        for h in sorted(set(h for (a, v), h in zip(rec["attrs"], hs) if list(v) == [k])):
+                            ctx.mon("objects: key is the single value of an attribute held in " + names[h])
         else:
             if case["db"] == "file" and case["reopen"] and db is not None:
                 db.conn.close()
@@ -460,6 +583,8 @@ def execute(ctx, case):
                 compare(ctx, case, db, expected, recs_so_far, branches, deriver, "after reopen")
             for name, n in deriver.stats.items():
                 ctx.mon(name, n)
+            if case.get("objects"):
+                ctx.mon("objects: imports completed with every key as id_spec dictates")
             if successive:
                 ctx.mon("successive: sequences completed with every key as id_spec dictates")
                 ctx.classes["successive: strategy=" + strategy] += 1
@@ -481,6 +606,19 @@ def execute(ctx, case):
     for v in contracts.drain():
         ctx.violation(case, v)
     return branches
+
+
+def _holder_of_rejected(recs, holders, r):
+    """Name of the sequence type that holds the multi-valued id attribute the reference derivation stopped at."""
+    import re
+
+    m = re.match(r"line (\d+): id attribute (\S+) has several values", r.get("why") or "")
+    if m:
+        i, name = int(m.group(1)), m.group(2)
+        for (k, v), h in zip(recs[i]["attrs"], holders[i]):
+            if k == name and len(v) > 1:
+                return {"tuple": "tuple", "listsub": "list-subclass instance", "list": "list"}[h]
+    return "sequence of unknown kind"
 
 
 def compare(ctx, case, db, expected, recs, branches, deriver, what):
@@ -1332,6 +1470,37 @@ def run(ctx):
         ctx.case(("dbcopy", case["fmt"], case["spec1"], case["spec"], str(case["ops"]), text, len(case["later"])), info["moved"] > 0,
                  sample={"kind": "dbcopy", "fmt": case["fmt"], "spec1": case["spec1"], "spec": case["spec"], "history": case["history"],
                          "text": text[:500]})
+    # the lines handed over as Feature objects, attribute values in lists / tuples / list subclasses: each style on every shard first
+    styles = ["tuple", "listsub", "mixed", "list"]
+    for i in range(ctx.budget(600, 12000)):
+        case = gen_objects_case(rng, style=styles[i % len(styles)] if i < 2 * len(styles) else None)
+        branches = execute(ctx, case)
+        if branches is None:
+            continue
+        kinds = sorted(set(branches))
+        outcome = "reject" if "multi-valued->reject" in kinds else "keys"
+        for cls in ["objects: holders=" + case["objects"]["style"], "objects: fmt=" + case["fmt"], "objects: data=" + case["objects"]["as"],
+                    "objects: outcome=" + outcome, "fmt=" + case["fmt"]] + ["objects: branch=" + b for b in kinds]:
+            ctx.classes[cls] += 1
+        text = "".join(text_of(b, case["fmt"]) for b in case["batches"])
+        ctx.case(("objects", case["fmt"], case["spec"], len(case["batches"]), text, str(case["objects"])),
+                 len(kinds) >= 2 or outcome == "reject",
+                 sample={"kind": "import", "objects": {"as": case["objects"]["as"], "style": case["objects"]["style"]}, "fmt": case["fmt"],
+                         "spec": case["spec"], "branches": kinds, "text": text[:500]}, cls="feature objects")
+    # create_db to a path that already holds a database: with and without force on every shard first
+    for i in range(ctx.budget(240, 5000)):
+        case = gen_occupied_case(rng, force=(i % 2 == 0) if i < 8 else None)
+        branches = execute(ctx, case)
+        if branches is None:
+            continue
+        kinds = sorted(set(branches))
+        ctx.classes["occupied path: " + ("force=True" if case["preexisting"]["force"] else "no force")] += 1
+        ctx.classes["fmt=" + case["fmt"]] += 1
+        text = "".join(text_of(b, case["fmt"]) for b in case["batches"])
+        ctx.case(("occupied", case["fmt"], case["spec"], len(case["batches"]), text, text_of(case["preexisting"]["recs"], case["fmt"]),
+                  case["preexisting"]["force"]), True,
+                 sample={"kind": "import", "preexisting": {"force": case["preexisting"]["force"], "lines": len(case["preexisting"]["recs"])},
+                         "fmt": case["fmt"], "spec": case["spec"], "text": text[:400]}, cls="occupied path")
     ctx.mon("autoid contract evaluations", contracts.EVALS["autoid"])
     ctx.mon("bins.bins contract evaluations", contracts.EVALS["bins.bins"])
 
@@ -1366,7 +1535,12 @@ MANIFEST = {
             "exactly the keys / lines the rule plus the strategy give, the numbering going on without skipping and the next number absent. "
             "Databases built under another id_spec, with deleted and added features, are handed to create_db as data under a new id_spec S: "
             "the new keys must be those S gives for the features in the order the source iterates them, whatever they were called before; "
-            "an update() of the copy counts on from the copy's own numbers.",
+            "an update() of the copy counts on from the copy's own numbers. "
+            "The generated files are also handed over as gffutils Feature objects (list or iterator; GFF3 and GTF dialect) whose attribute values "
+            "sit in lists, tuples and list-subclass instances: one-item sequences give the key, a multi-valued id attribute reached by the spec "
+            "must make the import raise whatever sequence type holds the values. "
+            "Imports into a file path that already holds a gffutils database: with force=True the result must hold exactly the imported features "
+            "under the keys id_spec dictates; without force create_db may raise, and a database it returns is judged the same way.",
     "note": "Trusted: gvmon/models/C04.py, the reference renderer, icontract. Inputs whose derived keys collide are "
             "skipped (C05 judges them).",
 }
